@@ -61,11 +61,52 @@ def rename(rng, prems, conc):
         return ('Q', s[1], (v[1], v[2]), f(s[3]))
     return [f(p) for p in prems], f(conc)
 
+def near_variants(rng, s):
+    "Closed sentences one edit away from s."
+    out = []
+    def edit(x):
+        k = x[0]
+        if k == 'A':
+            return [('A', x[1], x[2] + 1), ('A', (x[1] + 1) % 5, x[2])]
+        if k == 'P':
+            res = []
+            ps = list(x[2])
+            if len(ps) >= 2 and ps[0] != ps[1]:
+                res.append(('P', x[1], tuple(ps[::-1])))
+            for i, p in enumerate(ps):
+                if p[0] == 'c':
+                    res.append(('P', x[1], tuple(ps[:i] + [('c', p[1], p[2] + 1)] + ps[i + 1:])))
+                    res.append(('P', x[1], tuple(ps[:i] + [('c', (p[1] + 1) % 4, p[2])] + ps[i + 1:])))
+            if x[1][0] >= 0:
+                res.append(('P', (x[1][0], x[1][1] + 1, x[1][2]), x[2]))
+            return res
+        if k == 'O':
+            res = []
+            if len(x[2]) == 2 and x[2][0] != x[2][1]:
+                res.append(('O', x[1], (x[2][1], x[2][0])))
+            for i, y in enumerate(x[2]):
+                for z in edit(y)[:2]:
+                    res.append(('O', x[1], x[2][:i] + (z,) + x[2][i + 1:]))
+            return res
+        if k == 'Q':
+            res = [('Q', x[1], x[2], z) for z in edit(x[3])[:2]]
+            v = ('v',) + tuple(x[2])
+            nv = ('v', x[2][0], x[2][1] + 1)
+            if nv not in refsem._free_vars(x[3]):
+                res.append(('Q', x[1], (nv[1], nv[2]), refsem.subst(x[3], v, nv)))
+            return res
+        return []
+    for z in edit(s):
+        if z != s and not refsem._free_vars(z) and z not in out:
+            out.append(z)
+    rng.shuffle(out)
+    return out
+
 def two_cfgs(srng, logic, prems, conc):
     out = []
     for k in range(2):
         opts = dict(proofwl.ALL_OPT_COMBOS[srng.randrange(4)])
-        opts['is_build_models'] = True
+        opts['is_build_models'] = (k == 0)          # one run with models (for diagnosis), one without
         opts['max_steps'] = GUARD_STEPS
         out.append(proofsim.Config(logic, prems, conc, opts, order_seed=0 if k == 0 else srng.getrandbits(32),
             cache=srng.choice(proofsim.CACHE_SIZES), drive=srng.choice(('build', 'step'))))
@@ -81,7 +122,26 @@ def make_family(ctx):
     rp.insert(rng.randrange(len(rp) + 1), conc)
     if rng.random() < 0.25:
         rp.insert(rng.randrange(len(rp) + 1), conc)       # the shared sentence occurs twice
+    if rng.random() < 0.5:
+        # near-miss distractors: sentences that differ from the shared one in a single detail
+        # (argument order, a subscript, operand order, bound variable) placed around it
+        for v in near_variants(rng, conc)[:rng.choice((1, 2))]:
+            rp.insert(rng.randrange(len(rp) + 1) if rng.random() < 0.5 else len(rp), v)
     fam['reflexive'] = (rp, conc)
+    if rng.random() < 0.35:
+        # literal reflexivity: the shared sentence is a literal, surrounded by literals that differ
+        # from it in one detail (closure must tell them apart and still find the real clash)
+        cs = rng.sample(range(4), 2)
+        lit = rng.choice((
+            ('P', (rng.randrange(2), rng.choice((0, 0, 1)), 2), (('c', cs[0], 0), ('c', cs[1], rng.choice((0, 0, 1))))),
+            ('P', (0, 0, 3), (('c', cs[0], 0), ('c', cs[1], 0), ('c', cs[0], 0))),
+            ('P', (0, 0, 1), (('c', cs[0], rng.choice((0, 1, 11))),)),
+            ('A', rng.randrange(3), rng.choice((0, 1, 10)))))
+        if rng.random() < 0.3:
+            lit = ('O', 'Negation', (lit,))
+        vs = near_variants(rng, lit)[:rng.choice((1, 2, 3))]
+        k = rng.randrange(len(vs) + 1)
+        fam['reflexive'] = (vs[:k] + [lit] + vs[k:] + ([rng.choice(prems)] if prems and rng.random() < 0.3 else []), lit)
     extra = lexgen.gen_sentence(rng, prof, depth=rng.choice((0, 1, 2)))
     mp = list(prems)
     mp.insert(rng.randrange(len(mp) + 1), extra)
@@ -106,6 +166,11 @@ def judge_family(ctx, logic, fam, record=True):
     # (1) reflexivity
     if 'reflexive' in runs:
         bad = cls('reflexive', 'refuted')
+        err = [(c, r) for c, r in runs.get('reflexive', []) if r.outcome.startswith('error')]
+        if err and not bad:
+            c, r = err[0]
+            viol = ('reflexivity', 'raises|' + proofcheck.raise_site(r.error),
+                    '%s %s: the conclusion is a premise, yet the build raises %s: %s' % (logic, lexgen.argstr(c.prems, c.conc), type(r.error).__name__, r.error), [c])
         if bad:
             c, r = bad[0]
             key, why = explain_refuted_valid(ctx, c, r)
